@@ -18,15 +18,16 @@ Kinds == {"NEW_TRANSACTION", "REVERTED_TRANSACTION", "SET_METADATA/ACCOUNT", "SE
 TimeClasses == {"micro", "far-past", "far-future", "offset"}
 AmountClasses == {"small", "over-64-bit", "2^200"}
 MetaClasses == {"empty", "unicode", "quotes-and-escapes"}
-KeyClasses == {"none", "255-chars"}
+KeyClasses == {"none", "255-chars", "escapes"}
 IdClasses == {"small", "over-2^53"}
 
 Entries == [kind : Kinds, time : TimeClasses, amount : AmountClasses, meta : MetaClasses, key : KeyClasses, id : IdClasses]
-\* only the value classes that matter for a kind (the others are fixed), to keep the enumeration meaningful
+\* only the value classes that matter for a kind (the others are fixed), to keep the enumeration meaningful.
+\* For the DELETE_METADATA kinds the meta class is the shape of the DELETED KEY (plain / unicode / needing JSON escapes);
+\* the key class is the shape of the idempotency key and of the reference.
 Relevant(e) ==
     /\ (e.kind \notin {"NEW_TRANSACTION", "REVERTED_TRANSACTION"} => e.amount = "small")
     /\ (e.kind \notin {"SET_METADATA/TRANSACTION", "DELETE_METADATA/TRANSACTION", "REVERTED_TRANSACTION"} => e.id = "small")
-    /\ (e.kind \in {"DELETE_METADATA/ACCOUNT", "DELETE_METADATA/TRANSACTION"} => e.meta = "empty")
 Pool == {e \in Entries : Relevant(e)}
 
 \* ---- the chain law -----------------------------------------------------------------
